@@ -12,10 +12,16 @@
   * `hash_match_intact`         hash matches ⇒ not redacted, JSON = canonical form of the stripped input
   * `hash_mismatch_redacted`    hash does not match ⇒ flagged redacted, JSON = canonical form of the
                                 redaction of the stripped input (so only kept keys, `redact_exact`)
-  * `tamper_redactable_same_identity_partial`  two received events with the same redacted form get
-                                the same event ID and the same signature verdicts
+  * `tamper_redactable_same_identity`  two received events whose redacted forms agree (up to the
+                                `event_id` member the keep struct re-emits for a case variant such as
+                                `Event_id`) get the same event ID and the same signature verdicts —
+                                provided an event that passed the hash check carries no such variant
+                                (needed: kernel-evaluated counter-example at the end of the file)
+  * `same_redaction_same_identity_intact`  … and so do two events that both passed the hash check
+  * `tamper_redactable_same_identity_partial`  the earlier form (no `event_id` in the redaction), a corollary
 -/
 import VProofs.EventParse
+import VProofs.EventTamper
 import VProps.C05
 namespace V.C04
 open V V.Json V.GoJson V.Redact V.EventParse V.RedactProofs V.EventProofs
@@ -344,14 +350,189 @@ theorem redaction_of_accepted {H : Bytes → Bytes} {ver text : Bytes} {e : PDU}
     rw [this]
     exact C05.redact_idem hr
 
+/-! ### the `event_id` re-emitted by the keep struct -/
+
+/-- the keep struct's `event_id` field of a registered version: present, and a raw pass-through -/
+theorem event_id_field {ver : Bytes} {a : Algo} (ha : algoOf ver = some a)
+    (hev : a.fields.any (fun f => f.name == b!"event_id") = true) :
+    tablesOk a = true ∧ ∃ g ∈ a.fields, g.name = b!"event_id" ∧ g.kind = .raw := by
+  obtain ⟨hT, hS⟩ := C05.algoOf_ok ha
+  obtain ⟨g, hg, hgn⟩ := List.any_eq_true.mp hev
+  have hgn' : g.name = b!"event_id" := by simpa using hgn
+  refine ⟨hT, g, hg, hgn', ?_⟩
+  have hall : a.fields.all (fun f => f.kind == .raw || f.name == b!"type" || f.name == b!"content") = true := by
+    simp only [C05.shapeOk, Bool.and_eq_true] at hS; exact hS.1.2
+  have := List.all_eq_true.mp hall g hg
+  rw [hgn'] at this
+  simpa using this
+
+theorem deleteKeys_sub (ks : List Bytes) (kvs : EventParse.Obj) : ∀ kv ∈ deleteKeys ks kvs, kv ∈ kvs := by
+  unfold deleteKeys
+  induction ks generalizing kvs with
+  | nil => intro kv h; exact h
+  | cons k rest ih =>
+    intro kv h
+    simp only [List.foldl_cons] at h
+    exact deleteFirst_sub k kvs kv (ih _ kv h)
+
+/-- the members left after the receiver's stripping carry grammatical number literals -/
+theorem stripped_numsOk {fmt : Fmt} {text : Bytes} {p : PVal} {kvs : EventParse.Obj} (hp : parse text = some p)
+    (hs : stripped fmt p.toJVal = .obj kvs) : numsOkMembers kvs = true := by
+  have hn := parse_numsOk hp
+  unfold stripped at hs
+  split at hs
+  · rename_i kvs0 hj
+    rw [hj] at hn
+    simp only [JVal.numsOk] at hn
+    have hk : kvs = deleteKeys (stripKeys fmt) kvs0 := by injection hs with h; exact h.symm
+    rw [allNums_iff, hk]
+    intro kv hkv
+    exact (allNums_iff kvs0).mp hn kv (deleteKeys_sub _ _ kv hkv)
+  · rename_i hno
+    exact absurd hs (hno _)
+
+/-- What the identity of an accepted event (formats with a computed ID) is computed from: the
+    redaction of the stripped input with the re-emitted `event_id` dropped — provided an event that is
+    returned *not redacted* carries no case variant of `event_id` (`hclean`).  A redacted event never
+    keeps one: it is either re-parsed from its redaction without `event_id`, or its redaction changed
+    nothing, and then there was no variant (`no_variant_of_same_canon`). -/
+theorem identity_of_accepted {H : Bytes → Bytes} {ver text : Bytes} {e : PDU} (h : parseUntrusted H ver text = .ok e)
+    {row : VGen.VersionRow} {fmt : Fmt} {p : PVal} {kvs : EventParse.Obj}
+    (hrow : rowOf ver = some row) (hfmt : fmtOfName row.newEventFromUntrustedJSONFunc = some fmt) (hv : fmt ≠ .v1)
+    (hp : parse text = some p) (hs : stripped fmt p.toJVal = .obj kvs)
+    {rk : EventParse.Obj} (hr : redactJSON ver (.obj kvs) = .ok (.obj rk))
+    (hclean : e.redacted = false → lookupExact rk b!"event_id" = none) :
+    redactJSON ver (.obj e.obj) = .ok (.obj (deleteFirst b!"event_id" rk)) ∧
+    referenceID H row ver (.obj e.obj) = .ok e.f.eventIDRaw := by
+  obtain ⟨row', fmt', p', kvs', hrow', hfmt', hp', hs', hA, hef, hcase⟩ := parseUntrusted_cases h
+  have e1 : row' = row := by rw [hrow] at hrow'; exact (Option.some.inj hrow').symm
+  subst e1
+  have e2 : fmt' = fmt := by rw [hfmt] at hfmt'; exact (Option.some.inj hfmt').symm
+  subst e2
+  have e3 : p' = p := by rw [hp] at hp'; exact (Option.some.inj hp').symm
+  subst e3
+  have e4 : kvs' = kvs := by rw [hs] at hs'; injection hs' with h1; exact h1.symm
+  subst e4
+  have hidr : referenceID H row' ver (.obj e.obj) = .ok e.f.eventIDRaw := by
+    obtain ⟨row2, hrow2, hid⟩ := hA.hid (by rw [hef]; exact hv)
+    have : row2 = row' := by rw [hrow] at hrow2; exact (Option.some.inj hrow2).symm
+    subst this
+    exact hid
+  refine ⟨?_, hidr⟩
+  obtain ⟨_, a, ha, hev⟩ := row_facts hrow
+  obtain ⟨hT, g, hg, hgn, hgk⟩ := event_id_field ha hev
+  have hro : redactObj a kvs' = .ok (.obj rk) := by simpa [redactJSON, ha, redactWith] using hr
+  have hdrop : ∀ r, dropEventID fmt' (.obj r) = .obj (deleteFirst b!"event_id" r) := by
+    intro r; unfold dropEventID
+    rw [if_neg (by simp [hv])]
+  -- an event that keeps its received members has no variant of `event_id`
+  have hkeep : lookupExact rk b!"event_id" = none → redactJSON ver (.obj kvs') = .ok (.obj (deleteFirst b!"event_id" rk)) := by
+    intro hn; rw [deleteFirst_absent _ _ hn]; exact hr
+  rcases hcase with ⟨_, hred, ho, _⟩ | ⟨_, _, r0, hredj, hj, ho | hdropped⟩
+  · rw [ho]; exact hkeep (hclean hred)
+  · have hr0 : r0 = .obj rk := by rw [hr] at hredj; injection hredj with h1; exact h1.symm
+    subst hr0
+    rw [ho]
+    apply hkeep
+    apply no_variant_of_same_canon hT hg hgn hgk (stripped_numsOk hp hs) hro
+    rw [← hdrop, ← hj, hA.hjson, ho]
+  · have hr0 : r0 = .obj rk := by rw [hr] at hredj; injection hredj with h1; exact h1.symm
+    subst hr0
+    rw [hdrop] at hdropped
+    have ho : e.obj = deleteFirst b!"event_id" rk := by injection hdropped with h1; exact h1.symm
+    -- the reference of the re-parsed event was computed, so its redaction succeeded
+    rw [ho] at hidr ⊢
+    unfold referenceID at hidr
+    split at hidr
+    · cases hidr
+    · rename_i r hrr
+      have hrr' : redactObj a (deleteFirst b!"event_id" rk) = .ok (.obj r) := by
+        simpa [redactJSON, ha, redactWith] using hrr
+      rw [hrr, redactObj_dropEventID hT hg hgn hgk hro hrr']
+    · cases hidr
+
 /-- **Tampering with redactable material keeps the identity.**  Two received events (same room
-    version, event-ID format 2 or 3) whose stripped forms have the same redaction get the same event
-    ID, and every signature check gives the same verdict on both — whichever of them passed the
-    content-hash check.
-    `_partial`: stated for redactions without an `event_id` member, i.e. for events that carry no
-    case variant of `event_id` (the exact key is stripped on receipt).  For events with such a
-    variant the constructors reset the decoded ID and drop the re-emitted key (commit c0dfbd8); that
-    path is covered by the correspondence ops (tampering `top.add` with `Event_id`) only. -/
+    version, event-ID format 2 or 3) whose stripped forms have the same redaction — up to the
+    `event_id` member that the keep struct re-emits for a case variant such as `Event_id`
+    (`hsame`) — get the same event ID, and every signature check gives the same verdict on both,
+    whichever of them passed the content-hash check.
+
+    Side condition (`hc1`, `hc2`): an event that is returned *not redacted* (its content hash matched)
+    carries no case variant of `event_id`.  It holds of every event `EventBuilder.Build` produces and of
+    every copy of such an event whose hashed part is untouched, i.e. of the "original" and of every
+    hash-preserving tampering the property quantifies over; a tampered copy that *adds* `Event_id`
+    fails the hash check, is redacted, and is covered (its variant is dropped: commit c0dfbd8).
+    The condition cannot be removed: see `tamper_identity_variant_counterexample` below. -/
+theorem tamper_redactable_same_identity {H : Bytes → Bytes} {ver t1 t2 : Bytes} {e1 e2 : PDU}
+    (h1 : parseUntrusted H ver t1 = .ok e1) (h2 : parseUntrusted H ver t2 = .ok e2)
+    {row : VGen.VersionRow} {fmt : Fmt} {p1 p2 : PVal} {k1 k2 : EventParse.Obj}
+    (hrow : rowOf ver = some row) (hfmt : fmtOfName row.newEventFromUntrustedJSONFunc = some fmt) (hv : fmt ≠ .v1)
+    (hp1 : parse t1 = some p1) (hp2 : parse t2 = some p2)
+    (hs1 : stripped fmt p1.toJVal = .obj k1) (hs2 : stripped fmt p2.toJVal = .obj k2)
+    {rk1 rk2 : EventParse.Obj} (hr1 : redactJSON ver (.obj k1) = .ok (.obj rk1)) (hr2 : redactJSON ver (.obj k2) = .ok (.obj rk2))
+    (hsame : deleteFirst b!"event_id" rk1 = deleteFirst b!"event_id" rk2)
+    (hc1 : e1.redacted = false → lookupExact rk1 b!"event_id" = none)
+    (hc2 : e2.redacted = false → lookupExact rk2 b!"event_id" = none) :
+    e1.f.eventIDRaw = e2.f.eventIDRaw ∧
+    ∀ verify name kid pk, C05.sigValid verify ver (.obj e1.obj) name kid pk = C05.sigValid verify ver (.obj e2.obj) name kid pk := by
+  obtain ⟨ha1, hi1⟩ := identity_of_accepted h1 hrow hfmt hv hp1 hs1 hr1 hc1
+  obtain ⟨ha2, hi2⟩ := identity_of_accepted h2 hrow hfmt hv hp2 hs2 hr2 hc2
+  rw [hsame] at ha1
+  constructor
+  · simp only [referenceID, ha1] at hi1
+    simp only [referenceID, ha2] at hi2
+    rw [hi1] at hi2
+    injection hi2
+  · intro verify name kid pk
+    simp only [C05.sigValid, signingPayload, referenceBytes, signaturesOf, ha1, ha2]
+
+/-- The case the side condition of `tamper_redactable_same_identity` leaves out and in which the
+    conclusion still holds: two events that both passed the hash check and have the same redaction
+    (whatever it contains) have the same ID and signature verdicts. -/
+theorem same_redaction_same_identity_intact {H : Bytes → Bytes} {ver t1 t2 : Bytes} {e1 e2 : PDU}
+    (h1 : parseUntrusted H ver t1 = .ok e1) (h2 : parseUntrusted H ver t2 = .ok e2)
+    {row : VGen.VersionRow} {fmt : Fmt} {p1 p2 : PVal} {k1 k2 : EventParse.Obj}
+    (hrow : rowOf ver = some row) (hfmt : fmtOfName row.newEventFromUntrustedJSONFunc = some fmt) (hv : fmt ≠ .v1)
+    (hp1 : parse t1 = some p1) (hp2 : parse t2 = some p2)
+    (hs1 : stripped fmt p1.toJVal = .obj k1) (hs2 : stripped fmt p2.toJVal = .obj k2)
+    {rk : EventParse.Obj} (hr1 : redactJSON ver (.obj k1) = .ok (.obj rk)) (hr2 : redactJSON ver (.obj k2) = .ok (.obj rk))
+    (hi1 : e1.redacted = false) (hi2 : e2.redacted = false) :
+    e1.f.eventIDRaw = e2.f.eventIDRaw ∧
+    ∀ verify name kid pk, C05.sigValid verify ver (.obj e1.obj) name kid pk = C05.sigValid verify ver (.obj e2.obj) name kid pk := by
+  have key : ∀ {t : Bytes} {e : PDU} {p : PVal} {k : EventParse.Obj}, parseUntrusted H ver t = .ok e → parse t = some p →
+      stripped fmt p.toJVal = .obj k → redactJSON ver (.obj k) = .ok (.obj rk) → e.redacted = false →
+      redactJSON ver (.obj e.obj) = .ok (.obj rk) ∧ referenceID H row ver (.obj e.obj) = .ok e.f.eventIDRaw := by
+    intro t e p k h hp hs hr hi
+    obtain ⟨row', fmt', p', kvs', hrow', hfmt', hp', hs', hA, hef, hcase⟩ := parseUntrusted_cases h
+    have e1 : row' = row := by rw [hrow] at hrow'; exact (Option.some.inj hrow').symm
+    subst e1
+    have e2 : fmt' = fmt := by rw [hfmt] at hfmt'; exact (Option.some.inj hfmt').symm
+    subst e2
+    have e3 : p' = p := by rw [hp] at hp'; exact (Option.some.inj hp').symm
+    subst e3
+    have e4 : kvs' = k := by rw [hs] at hs'; injection hs' with h1; exact h1.symm
+    subst e4
+    have hidr : referenceID H row' ver (.obj e.obj) = .ok e.f.eventIDRaw := by
+      obtain ⟨row2, hrow2, hid⟩ := hA.hid (by rw [hef]; exact hv)
+      have : row2 = row' := by rw [hrow] at hrow2; exact (Option.some.inj hrow2).symm
+      subst this
+      exact hid
+    rcases hcase with ⟨_, _, ho, _⟩ | ⟨_, hred, _⟩
+    · rw [ho]; exact ⟨hr, by rw [← ho]; exact hidr⟩
+    · rw [hi] at hred; cases hred
+  obtain ⟨ha1, hd1⟩ := key h1 hp1 hs1 hr1 hi1
+  obtain ⟨ha2, hd2⟩ := key h2 hp2 hs2 hr2 hi2
+  constructor
+  · simp only [referenceID, ha1] at hd1
+    simp only [referenceID, ha2] at hd2
+    rw [hd1] at hd2
+    injection hd2
+  · intro verify name kid pk
+    simp only [C05.sigValid, signingPayload, referenceBytes, signaturesOf, ha1, ha2]
+
+/-- The earlier, weaker form (kept under its name): the same redaction on both sides and no `event_id`
+    member in it, i.e. neither event carries a case variant of `event_id`.  A corollary of
+    `tamper_redactable_same_identity`. -/
 theorem tamper_redactable_same_identity_partial {H : Bytes → Bytes} {ver t1 t2 : Bytes} {e1 e2 : PDU}
     (h1 : parseUntrusted H ver t1 = .ok e1) (h2 : parseUntrusted H ver t2 = .ok e2)
     {row : VGen.VersionRow} {fmt : Fmt} {p1 p2 : PVal} {k1 k2 : EventParse.Obj}
@@ -361,18 +542,8 @@ theorem tamper_redactable_same_identity_partial {H : Bytes → Bytes} {ver t1 t2
     {rk : EventParse.Obj} (hr1 : redactJSON ver (.obj k1) = .ok (.obj rk)) (hr2 : redactJSON ver (.obj k2) = .ok (.obj rk))
     (hnoid : lookupExact rk b!"event_id" = none) :
     e1.f.eventIDRaw = e2.f.eventIDRaw ∧
-    ∀ verify name kid pk, C05.sigValid verify ver (.obj e1.obj) name kid pk = C05.sigValid verify ver (.obj e2.obj) name kid pk := by
-  obtain ⟨ha1, hf1, hi1⟩ := redaction_of_accepted h1 hrow hfmt hp1 hs1 hr1 hnoid
-  obtain ⟨ha2, hf2, hi2⟩ := redaction_of_accepted h2 hrow hfmt hp2 hs2 hr2 hnoid
-  constructor
-  · have a := hi1 (by rw [hf1]; exact hv)
-    have b := hi2 (by rw [hf2]; exact hv)
-    simp only [referenceID, ha1] at a
-    simp only [referenceID, ha2] at b
-    rw [a] at b
-    injection b
-  · intro verify name kid pk
-    simp only [C05.sigValid, signingPayload, referenceBytes, signaturesOf, ha1, ha2]
+    ∀ verify name kid pk, C05.sigValid verify ver (.obj e1.obj) name kid pk = C05.sigValid verify ver (.obj e2.obj) name kid pk :=
+  tamper_redactable_same_identity h1 h2 hrow hfmt hv hp1 hp2 hs1 hs2 hr1 hr2 rfl (fun _ => hnoid) (fun _ => hnoid)
 
 /-! ## Non-vacuity: concrete received events (room version 10, toy hash `H0 _ = []`) -/
 
@@ -392,5 +563,55 @@ example : (match parseUntrusted H0 b!"10" (exText "") with
 example : (match parseUntrusted H0 b!"10" (exText "QUJD") with
   | .ok e => e.redacted && e.f.type == b!"m.x" && (e.f.content.map encodeCanon == some b!"{}")
   | _ => false) = true := by decide +kernel
+
+/-! ## `tamper_redactable_same_identity`: an instance, and why its side condition is needed
+
+Toy hash `H1 b = [length of b mod 256]` (enough to tell the reference bytes apart).  Room version 10. -/
+
+def H1 : Bytes → Bytes := fun b => [UInt8.ofNat b.length]
+
+/-- an event with an optional case variant `Event_id`, a content body and a declared hash -/
+def exEv (variant : Bool) (body h : String) : Bytes :=
+  ("{" ++ (if variant then "\"Event_id\":\"$x\"," else "") ++ "\"auth_events\":[],\"content\":{\"body\":\"" ++ body ++
+   "\"},\"depth\":1,\"hashes\":{\"sha256\":\"" ++ h ++
+   "\"},\"origin_server_ts\":1,\"prev_events\":[],\"room_id\":\"!r:h\",\"sender\":\"@a:h\",\"type\":\"m.x\"}"
+  ).toList.flatMap (fun c => utf8Encode c.toNat)
+
+/-- canonical bytes of the redaction of the stripped form of a text (room version 10): as it is, and with `event_id` dropped -/
+def exRedaction (t : Bytes) : Option (Bytes × Bytes) :=
+  match parse t with
+  | some p =>
+    match redactJSON b!"10" (stripped .v2 p.toJVal) with
+    | .ok (.obj rk) => some (encodeCanon (.obj rk), encodeCanon (.obj (deleteFirst b!"event_id" rk)))
+    | _ => none
+  | none => none
+
+/-- The hypotheses of `tamper_redactable_same_identity` with DIFFERENT redactions on the two sides (the case the
+    `_partial` form did not cover): a genuine event (hash matches, no variant) and a copy to which `Event_id` was
+    added.  The copy fails the hash check, its redaction carries the re-emitted `event_id`, the two redactions
+    agree once it is dropped — and both get the same event ID, as the theorem says. -/
+example : (match parseUntrusted H1 b!"10" (exEv false "x" "hw"), parseUntrusted H1 b!"10" (exEv true "x" "hw") with
+  | .ok e, .ok t => !e.redacted && t.redacted && e.f.eventIDRaw == t.f.eventIDRaw && !e.f.eventIDRaw.isEmpty
+  | _, _ => false) = true := by decide +kernel
+
+example : (match exRedaction (exEv false "x" "hw"), exRedaction (exEv true "x" "hw") with
+  | some (r1, d1), some (r2, d2) => r1 != r2 && d1 == d2
+  | _, _ => false) = true := by decide +kernel
+
+/-- **Why the side condition is needed** (`tamper_identity_variant_counterexample`).  An event whose SENDER put
+    a case variant `Event_id` into it and hashed it (the hash matches: it is returned not redacted, so `hc1`
+    fails), and a copy of it with only redactable content altered (hash mismatch).  The two have the SAME
+    redaction, yet get DIFFERENT event IDs: the intact event's reference hash covers the re-emitted `event_id`,
+    the re-parsed redacted copy's does not.  Replayed on the Go code (room version 10, real SHA-256):
+    `$si3leqN6sEe5uZjub5Omi8dQwFNHlF8rnB0tETZ34wI` vs `$3zoncHWlgVBMjowEQsafT_q1-qgCFhrIfJOdLmHvsJ4`.
+    Such an event is not one `EventBuilder.Build` produces; the root is that the redaction keep struct matches
+    keys case-insensitively (C05's stated domain restriction). -/
+example : (match parseUntrusted H1 b!"10" (exEv true "x" "lw"), parseUntrusted H1 b!"10" (exEv true "yy" "lw") with
+  | .ok a, .ok b => !a.redacted && b.redacted && a.f.eventIDRaw != b.f.eventIDRaw
+  | _, _ => false) = true := by decide +kernel
+
+example : (match exRedaction (exEv true "x" "lw"), exRedaction (exEv true "yy" "lw") with
+  | some (r1, _), some (r2, _) => r1 == r2
+  | _, _ => false) = true := by decide +kernel
 
 end V.C04
